@@ -27,6 +27,26 @@ if TYPE_CHECKING:  # pragma: no cover
 from functools import cached_property
 
 
+class _TermMapping(dict):
+    """
+    A dictionary keyed by `Term` instances that can also be looked up using the
+    string representation of a term with its factors in any order (a `Term`
+    hashes by its sorted factors, which a string such as "B:A" does not).
+    """
+
+    def __missing__(self, key: Any) -> Any:
+        if isinstance(key, str):
+            for term, value in self.items():
+                if term == key:
+                    return value
+        raise KeyError(key)
+
+    def __contains__(self, key: Any) -> bool:
+        if super().__contains__(key):
+            return True
+        return isinstance(key, str) and any(term == key for term in self)
+
+
 @dataclass(frozen=True)
 class ModelSpec:
     """
@@ -201,7 +221,7 @@ class ModelSpec:
         up elements of this mapping using the string representation of the
         `Term`.
         """
-        slices = {}
+        slices = _TermMapping()
         start = 0
         for row in self.__structure:
             end = start + len(row[2])
@@ -251,10 +271,12 @@ class ModelSpec:
         up elements of this mapping using the string representation of the
         `Term`.
         """
-        return {
-            k: slice(v[0], v[-1] + 1) if v else slice(0, 0)
-            for k, v in self.term_indices.items()
-        }
+        return _TermMapping(
+            {
+                k: slice(v[0], v[-1] + 1) if v else slice(0, 0)
+                for k, v in self.term_indices.items()
+            }
+        )
 
     @cached_property
     def term_factors(self) -> dict[Term, set[Factor]]:
